@@ -3,21 +3,21 @@ module verif/harness
 go 1.25.11
 
 require (
+	github.com/CrowdStrike/csproto v0.35.0
 	github.com/PowerDNS/lightningstream v0.0.0
 	github.com/PowerDNS/lmdb-go v1.9.3
 	github.com/PowerDNS/simpleblob v1.0.0
+	github.com/klauspost/compress v1.18.6
 	github.com/sirupsen/logrus v1.9.4
 )
 
 require (
-	github.com/CrowdStrike/csproto v0.35.0 // indirect
 	github.com/beorn7/perks v1.0.1 // indirect
 	github.com/c2h5oh/datasize v0.0.0-20231215233829-aa82cc1e6500 // indirect
 	github.com/cespare/xxhash/v2 v2.3.0 // indirect
 	github.com/go-logr/logr v1.4.3 // indirect
 	github.com/gogo/protobuf v1.3.2 // indirect
 	github.com/golang/protobuf v1.5.4 // indirect
-	github.com/klauspost/compress v1.18.6 // indirect
 	github.com/munnerz/goautoneg v0.0.0-20191010083416-a7dc8b61c822 // indirect
 	github.com/prometheus/client_golang v1.23.2 // indirect
 	github.com/prometheus/client_model v0.6.2 // indirect
